@@ -25,8 +25,8 @@ def bounded(tier, seed):
 
 MANIFEST = dict(
     category="other",
-    text='Contract-based proof of the objective recomputation and of the modelling helpers on the real source + bounded comparison with an exact explicit-route optimiser (feasibility for k >= covering number, slack inequality, minimal total slack, k=None).',
+    text='Contract-based proofs on the real source: the k-MPE ENCODERS (DAG without path-length scaling, cyclic, given weights: slacks of the routes through an element pay for its error, for every assignment), the objective handed to the solver, the objective recomputation, the modelling helpers + bounded comparison with an exact explicit-route optimiser (feasibility for k >= covering number, minimal total slack) + SymMILP.',
     design_ref="DESIGN.md section 3 / C07-C08",
     note="Optimality over all route choices is decided only by the bounded comparison with an exact enumeration oracle. Known open findings (repetition caps of the cyclic models) are listed in known_findings.json. Trusted: HiGHS, oracle.",
-    technique="contract-based deductive verification of building blocks and objective recomputation (PyVC) + bounded runtime-contract check vs exact enumeration oracle (+ SymMILP)",
+    technique='contract-based deductive verification of encoders, objective and building blocks (PyVC) + bounded runtime-contract check vs exact enumeration oracle (+ SymMILP)',
     engine="pyvc+rc+symmilp")
